@@ -68,7 +68,7 @@ impl CacheLogT {
 // ---- RawFetch::handle_error: a failed fetch takes ONLY its own registration (by its leader id -- never `None`, which
 // would take the registration of a newer fetch of the key and answer that fetch's waiters with this error), and
 // answers the waiters it took with its error
-//@region foyer-memory/src/raw.rs :: impl~^impl<E, S, I, C> RawFetch<E, S, I, C>/fn handle_error name=handle_error start=/let notifiers = match inflights/ stmts=99 sub=@inflights\.lock\(\)\.take\(@inflights.take(@
+//@region foyer-memory/src/raw.rs :: impl~^impl<E, S, I, C> RawFetch<E, S, I, C>/fn handle_error name=handle_error start=/let notifiers = / stmts=99 sub=@inflights\.lock\(\)\.take\(@inflights.take(@
 //@head
 fn handle_error(e: Error, id: usize, hash: u64, key: &u64, inflights: &mut InflightsT) -> (r: Try)
     ensures
@@ -79,7 +79,7 @@ fn handle_error(e: Error, id: usize, hash: u64, key: &u64, inflights: &mut Infli
 
 // ---- RawFetch::try_set_required, slow path (the leader has no fetch of its own): it consults the table under its own
 // id; a donated fetch builder becomes the required fetch, otherwise its waiters get the lookup result
-//@region foyer-memory/src/raw.rs :: impl~^impl<E, S, I, C> RawFetch<E, S, I, C>/fn try_set_required name=try_set_required_slow start=/let fetch_or_take = match inflights/ stmts=99 sub=@inflights\.lock\(\)\.fetch_or_take\(@inflights.fetch_or_take(@ sub=@required_fetch_builder\(ctx\)@verif_build(required_fetch_builder, ctx)@
+//@region foyer-memory/src/raw.rs :: impl~^impl<E, S, I, C> RawFetch<E, S, I, C>/fn try_set_required name=try_set_required_slow start=/let fetch_or_take = / stmts=99 sub=@inflights\.lock\(\)\.fetch_or_take\(@inflights.fetch_or_take(@ sub=@required_fetch_builder\(ctx\)@verif_build(required_fetch_builder, ctx)@
 //@head
 fn try_set_required_slow(ctx: &mut CtxT, id: usize, hash: u64, key: &u64, inflights: &mut InflightsT, res_no_fetch: Result<Option<u64>>) -> (r: Try)
     ensures
